@@ -90,14 +90,25 @@ RULE = (
     "length <= 2 over that alphabet (quick: Workflow / default name, and first-op x relation for the other graphs; "
     "thorough: all configurations, and all length-3 histories of the shape save-or-interrupted-save ; any op ; "
     "load|reopen|save|delete|foreign); when correspondence or a proof breaks: every history of length <= 3 x every "
-    "crash point (extended_search); non-trivial = at least one completed save and one further effective op; "
-    "distinct by canonical op list"
+    "crash point (extended_search); NESTED LAYOUT (Workflow, default location): the same saves addressed to the other "
+    "stores of the graph directory -- a child saved on its own (g/a/, g/b/), the recovery file written by a failed run "
+    "(g/recovery.*), checkpoints of the graph made by a child from inside a run (= the graph's own file) -- each "
+    "complete, failing, or cut at every file-system call INSIDE the run, plus load / delete per store: every op alone, "
+    "after each of 4 set-ups, followed by each delete / load, and random histories (thorough: all pairs); after every op "
+    "every store is probed; USER BACK ENDS (subclass instances handed to save / load / delete_storage / autoload=, with "
+    "and without the leftover hook); graph class no longer bound in its module (`old`); "
+    "non-trivial = at least one completed save and one further effective op; distinct by canonical op list"
 )
 TRUSTED = [
     "model Storage.saveSteps/deleteSteps/storageLoad/hasSaved/autoAttempt/nodeLoad transcribe "
     "StorageInterface.save/delete, PickleStorage._save/_load/_delete/_has_saved_content, the auto-load decision of "
     "Node._after_node_setup and Node.load (validated on the explored histories by comparing the file-system call "
     "trace, the four file states, the directory, has_saved_content() and the node version after every op)",
+    "nested layout: `StorageTree.view/put` = an op on one store is the flat op on that store's files, coupled to the "
+    "others only through the shared directory (validated by the same trace / state comparison over all four stores); "
+    "checkpoint = `graph_root.save()` from `Node._run_finally`, recovery = `save(filename=<graph dir>/recovery)` after a "
+    "failed run (by reading node.py; validated by the traces of real runs); between ops the harness clears what earlier "
+    "runs left in outputs and run caches so that the content of a save is the content the op names",
     "class relations: the harness builds the loading class for each relation with real Python classes and reports "
     "the relation to the model; that `classify` means what Python's `is` / `__qualname__` / `issubclass` mean is "
     "by reading",
@@ -1235,7 +1246,9 @@ def diff(case, impl, model):
     view = list(impl["obs"])
     st = _streams(model)
     match = {v for v, s in st.items() if s == view}
-    if case.get("backend") == "nohook":
+    if case.get("backend") == "nohook" and case.get("fname") == "default":
+        # (under an explicit file name the library's own back end, which `delete_storage` consults as well, addresses the
+        # very same files and sweeps them: the tree then behaves as with its own back end)
         # a user's back end that keeps the interface's default `_has_leftovers = False`: its delete cannot sweep leftovers
         # (C19_interface_delete_cleans_iff); everything else as the library's own back end
         if "atomicReplace" in match:
@@ -1400,7 +1413,7 @@ def oracle(case, r):
             probe_tok = pr["load"] if target == "main" else pr.get(target, "notFound")
             if left:
                 add(_f("delete-leaves-files", "delete", "present", k, op, f"files {fs}", **more))
-            elif left_tmp and case.get("backend") == "nohook" and not any(
+            elif left_tmp and case.get("backend") == "nohook" and default and not any(
                     (_store_files(before_fs, target) if before_fs else {}).get(x, "absent") != "absent"
                     for x in ("pckl", "cpckl")):
                 # the user's back end does not tell the interface about its leftovers: `delete` never reaches `_delete`
